@@ -17,6 +17,11 @@
 (*             the signature (string, int64, float64, bool); every argument    *)
 (*             a field or constant of its parameter's type that is present,    *)
 (*             absent or empty - absent ones arrive as their own zero value    *)
+(*   "pos"     root{ f1: X, f2: Y }, root{ f1: array[X], f2: Y } and               *)
+(*             root{ f1: object(p){ f1: X }, f2: Y }: X, Y fields and p an       *)
+(*             object anchor with positional predicates (n[1], n[2],           *)
+(*             n[last()], *[last()], *[2], a/b[last()]) over records with       *)
+(*             equally named siblings separated by text                        *)
 (*   "dyn"     root{ f1: dynfield[C], f2: X } and root{ f1: array[dynfield[C]], *)
 (*             f2: X }: computed xpaths whose computation succeeds, is empty   *)
 (*             or fails, next to a declaration with the same text             *)
@@ -69,6 +74,10 @@ TypedV == JsV \cup {V("field", xp, ty, FALSE, FALSE, "") : xp \in {0, 1}, ty \in
               \cup {V("const", 0, ty, nt, FALSE, lit) : ty \in Types, nt \in BOOLEAN, lit \in {"1", " y ", ""}}
 MkIE(m, p, v, ie) == [m |-> m, par |-> p, kind |-> [i \in 1..m |-> v[i].kind], xp |-> [i \in 1..m |-> v[i].xp], ty |-> [i \in 1..m |-> v[i].ty],
                       notrim |-> [i \in 1..m |-> v[i].notrim], keep |-> [i \in 1..m |-> v[i].keep], lit |-> [i \in 1..m |-> v[i].lit], ie |-> ie]
+\* fields whose xpath carries a positional predicate (Eval!XP 8..13), next to the bare names they refine
+\* (kept when empty: in records this small the selected element is often empty, and a kept "" differs from the null of
+\* "no match", so selecting the wrong sibling or none shows even then)
+PosV == {V("field", xp, "none", FALSE, TRUE, "") : xp \in {1, 3, 8, 9, 10, 11, 12, 13}}
 TwinV == {V("jsconst", 0, "none", FALSE, FALSE, lit) : lit \in {"throw:x", "str:x", "probe:x"}}
 Trees ==
   CASE Family = "ietwin" ->
@@ -85,6 +94,11 @@ Trees ==
          { Mk(4, <<0, 1, 2, 1>>, <<V("object", 0, "none", FALSE, FALSE, ""), dv, c, x>>) : dv \in DynV, c \in DynChildV, x \in FieldV \cup DynChildV }
          \cup { Mk(5, <<0, 1, 2, 3, 1>>, <<V("object", 0, "none", FALSE, FALSE, ""), V("array", 0, "none", FALSE, FALSE, ""), dv, c, x>>) :
                    dv \in DynV, c \in DynChildV, x \in DynChildV }
+    [] Family = "pos" ->
+         { Mk(3, <<0, 1, 1>>, <<V("object", 0, "none", FALSE, FALSE, ""), x, y>>) : x \in PosV, y \in PosV }
+         \cup { Mk(4, <<0, 1, 2, 1>>, <<V("object", 0, "none", FALSE, FALSE, ""), V("array", 0, "none", FALSE, FALSE, ""), x, y>>) : x \in PosV, y \in PosV }
+         \cup { Mk(4, <<0, 1, 2, 1>>, <<V("object", 0, "none", FALSE, FALSE, ""), V("object", xo, "none", FALSE, FALSE, ""), x, y>>) :
+                   xo \in {8, 9, 10, 11, 12}, x \in PosV \cup {V("field", 0, "none", FALSE, TRUE, "")}, y \in PosV }
     [] Family = "all" ->
          \* (the root is FINAL_OUTPUT, one of two variants: enumerating it separately keeps the function set below TLC's
          \* 10^6 element bound for M = 4)
